@@ -11,7 +11,10 @@ use crate::sut::{LangCfg, LangId, LibOutcome, SrcFile, ALL_LANGS};
 use serde_json::json;
 use std::collections::BTreeSet;
 
-const UNITS: [(&str, &str); 20] = [
+const UNITS: [(&str, &str); 21] = [
+    // more words than fit a line of any width a formatter or linter has an opinion about (240 characters): one doc line
+    // stays one comment line, or every line it is broken into is a comment line
+    ("so many words that the line grows far beyond what any style guide would allow and then goes on and on with further words about nothing in particular until it has passed two hundred and forty characters for certain which it has done by about here", "very-long-line"),
     ("\n", "newline"),
     ("*/", "star-slash"),
     ("/*", "slash-star"),
@@ -318,7 +321,7 @@ pub fn run(ctx: &Ctx) -> (Spec, Report) {
     rep.count("exhaustive_unit_sequences", n_exh as u64);
     let spec = Spec {
         level: "exploration",
-        rule: format!("doc strings built from the units {{newline, */, /*, //, \"\"\", ''', backslash, #, backtick, plain text, \\u, \\x, \\N{{, \\\"\"\", \"\"\"\", \", **/, //nolint:gosec, a URL with a port, # type: ignore}} with a sentinel after every unit: all {n_exh} sequences of length 1-3 (positions cycled), then random sequences up to length 12; written as ///, /** */ (plain or in gutter style with bare ` *` paragraph lines) or #[doc = \"..\"], optionally preceded by empty `///` lines and followed by further doc lines; attached to type, field, unit-enum variant, tagged-enum variant, struct-variant field, alias, newtype struct or unit-enum type; 6 languages; every sentinel occurrence in the output is classified by the language's tokeniser (CPython tokenize/ast for Python) and must lie in a comment/docstring; the output must tokenise, parse and define exactly what the doc-free twin defines; distinct = (language, position, doc spelling, unit sequence)"),
+        rule: format!("doc strings built from the units {{a line of 240 characters, newline, */, /*, //, \"\"\", ''', backslash, #, backtick, plain text, \\u, \\x, \\N{{, \\\"\"\", \"\"\"\", \", **/, //nolint:gosec, a URL with a port, # type: ignore}} with a sentinel after every unit: all {n_exh} sequences of length 1-3 (positions cycled), then random sequences up to length 12; written as ///, /** */ (plain or in gutter style with bare ` *` paragraph lines) or #[doc = \"..\"], optionally preceded by empty `///` lines and followed by further doc lines; attached to type, field, unit-enum variant, tagged-enum variant, struct-variant field, alias, newtype struct or unit-enum type; 6 languages; every sentinel occurrence in the output is classified by the language's tokeniser (CPython tokenize/ast for Python) and must lie in a comment/docstring; the output must tokenise, parse and define exactly what the doc-free twin defines; distinct = (language, position, doc spelling, unit sequence)"),
         assumptions: vec!["comment/docstring spans come from this harness's lexers and from CPython".into()],
         exhaustive: Some(true),
     };
